@@ -251,6 +251,28 @@ func (e *Explorer) Input(c Cfg, text []byte) {
 			}
 		}
 	}
+	// ---- beyond the listed properties (their schedules are strictly increasing): a call repeated on the SAME
+	// prefix -- a spurious wake-up -- changes nothing: same verdict, same offset, same suspended state.  With it
+	// the pair induction extends to schedules c1 <= c2 <= ... <= ck.  Reported as property "X-again".
+	if e.Props["X-again"] {
+		for p := c.Start + 1; p <= n; p++ {
+			if F[p].verdict != "more" {
+				continue
+			}
+			x := NewObj(c)
+			b := prefixOf(buf, p)
+			o1, _ := Call(x, b, c.Start)
+			o2, v2 := Call(x, b, o1)
+			e.st.Calls += 2
+			e.st.Pairs++
+			if v2 != "more" || o2 != F[p].offs {
+				e.report("X-again", "a call repeated on the same prefix changes verdict or offset", c, buf, []int{p, p}, "again-vo:"+c.Kind,
+					fmt.Sprintf("first call on %d bytes: (more,%d); repeated: (%s,%d)", p, o1, v2, o2))
+			} else if Fingerprint(x) != F[p].fp {
+				e.report("X-again", "a call repeated on the same prefix changes the suspended state", c, buf, []int{p, p}, "again-state:"+c.Kind, "")
+			}
+		}
+	}
 	// ---- C11: invariance under the start offset
 	if e.Props["C11"] && c.Start == 0 {
 		for _, k := range e.Shifts {
